@@ -41,6 +41,11 @@ where
 {
     fn work(&mut self) -> Result<BlockRet> {
         let mut o = self.dst.write_buf()?;
+        if o.is_empty() {
+            // A read into an empty buffer returns 0, which must not be taken
+            // for the peer closing the connection.
+            return Ok(BlockRet::WaitForStream(&self.dst, 1));
+        }
         let size = T::size();
         let mut buffer = vec![0; o.len()];
         // TODO: this read blocks.
